@@ -201,17 +201,18 @@ func newC18World(tr *C18Trace) *c18World {
 }
 
 type c18Run struct {
-	tr       *C18Trace
-	G, K     *c18World
-	drv      mapDriver
-	mapT     []int // c18Types index per position
-	relT     int   // c18Types index of the map's relation, -1
-	valSeq   uint64
-	step     int
-	Concrete []string
-	stats    map[string]int
-	dead     []ecs.Entity
-	locked   bool
+	tr        *C18Trace
+	G, K      *c18World
+	drv       mapDriver
+	mapT      []int // c18Types index per position
+	relT      int   // c18Types index of the map's relation, -1
+	valSeq    uint64
+	step      int
+	Concrete  []string
+	stats     map[string]int
+	dead      []ecs.Entity
+	locked    bool
+	resMapper *generic.Resource[C18Res]
 }
 
 func typeIndex(t reflect.Type) int {
@@ -1377,7 +1378,15 @@ type C18Res struct{ V uint64 }
 // opResource: generic.Resource vs Resources.
 func (r *c18Run) opResource(c *cursor) *Violation {
 	G, K := &r.G.w, &r.K.w
-	gr := generic.NewResource[C18Res](G)
+	if r.resMapper == nil {
+		m := generic.NewResource[C18Res](G)
+		r.resMapper = &m
+	}
+	gr := r.resMapper
+	if c.n(8) == 0 {
+		m := generic.NewResource[C18Res](G) // a second mapper for the same type now and then
+		gr = &m
+	}
 	kid := ecs.ResourceID[C18Res](K)
 	if gr.ID() != ecs.ResourceID[C18Res](G) {
 		return r.viol("Resource.ID differs from ResourceID")
